@@ -23,8 +23,22 @@ def run(prop, path):
             verdicts, _, _ = common.validate_traces("Trace_Tg", [new], work)
             new.setdefault("arg", new.get("argt"))
         else:
-            from . import registry
-            return registry.REPLAYERS[fam](prop, d, work)
+            # the replay file holds the complete recorded call (inputs, observed outputs): TLC judges that record again
+            mod = {"query": "Trace_Tier", "file": "Trace_File", "audio": "Trace_Audio", "zc": "Trace_Audio", "klatt": "Trace_Klatt",
+                   "series": "Trace_Klatt"}.get(fam)
+            if mod is None:
+                print("unknown event family", fam)
+                return 2
+            new = dict(ev, id=0)
+            verdicts, _, _ = common.validate_traces(mod, [new], work)
+            print("(recorded event re-judged; re-execution on the current tree is available for tier and textgrid events)")
+            fails = verdicts.get(0, [])
+            print("recorded clause:", d.get("clause"))
+            print("failing clauses now:", fails)
+            if d.get("clause") in fails:
+                print("VIOLATION property=%s replay=%s" % (prop, path))
+                return 1
+            return 0
         fails = verdicts.get(0, [])
         print("recorded clause:", d.get("clause"))
         print("re-executed event:", json.dumps({k: new[k] for k in ("op", "args", "pre", "arg", "st", "ret", "post")}))
